@@ -209,4 +209,43 @@ theorem tiles_bundle (ps : List GDesc) :
   have := tiles_segs 0 (ps.map repSize)
   simpa [repSize, repSizeL_eq_sum] using this
 
+
+/-! ### lengths of the value-level results -/
+
+section lengths
+set_option linter.unusedSectionVars false
+variable {α : Type} [Scalar α] [WordRep α]
+
+theorem wordsOfVec_length {n : Nat} (v : Vec α n) : (wordsOfVec v).length = n := by
+  simp [wordsOfVec, Lin.toArray]
+
+theorem valIdentity_length (G : LieModel α) : (valIdentity G).length = G.rep := wordsOfVec_length _
+theorem valCompose_length (G : LieModel α) (x y : List Word) : (valCompose G x y).length = G.rep :=
+  wordsOfVec_length _
+theorem valPlus_length (G : LieModel α) (x a : List Word) : (valPlus G x a).length = G.rep :=
+  wordsOfVec_length _
+
+end lengths
+
+/-- the length of a resolved sub-view is the RepSize of the sub-part's descriptor -/
+theorem resolvePath_len : ∀ (p : List Acc) (d : GDesc) (o l : Nat) (sd : GDesc),
+    resolvePath d p = some (o, l, sd) → l = repSize sd
+  | [], d, o, l, sd, h => by
+    simp only [resolvePath, Option.some.injEq, Prod.mk.injEq] at h
+    obtain ⟨_, rfl, rfl⟩ := h; rfl
+  | a :: rest, d, o, l, sd, h => by
+    simp only [resolvePath] at h
+    cases hs : subview d a with
+    | none => simp [hs] at h
+    | some t =>
+      obtain ⟨o1, l1, d1⟩ := t
+      simp only [hs] at h
+      cases hr : resolvePath d1 rest with
+      | none => simp [hr] at h
+      | some t2 =>
+        obtain ⟨o2, l2, d2⟩ := t2
+        simp only [hr, Option.some.injEq, Prod.mk.injEq] at h
+        obtain ⟨_, rfl, rfl⟩ := h
+        exact resolvePath_len rest d1 o2 l2 d2 hr
+
 end Mem
